@@ -171,6 +171,7 @@ func runRT(r *mc.Run, c *cluster.Cluster, key uint64, k rtCase, sh shape) {
 		return
 	}
 	decision := fmt.Sprintf("gz=%d|cipher=%v|pregz=%v", ur.Gzip, len(ur.CipherKey) > 0, k.PreGz)
+	r.Sample("roundtrip "+decision, w{"case": k, "bytes": len(sh.Data), "fetches": len(fetches(len(want)))})
 	for _, f := range fetches(len(want)) {
 		var got []byte
 		_, ferr := util.ReadUrlAsStream(url, ur.CipherKey, ur.Gzip > 0, f.full, int64(f.off), f.size, func(d []byte) {
@@ -511,6 +512,7 @@ func run(r *mc.Run) {
 			}
 		}
 	})
+	r.Sample("decompress", dzCase{"DecompressData", "1f8b0800"})
 	r.Set("decompress_max_len_after_magic", maxLen)
 	r.Set("isolated_inputs", len(iso))
 }
